@@ -131,7 +131,7 @@ IsDirect(r) == "direct" \in DOMAIN r
 \* a line judged without the reference interpreter (value classes the model
 \* has no text for): Go against JS only, where the class is in the subset
 DirectVerdict(r) ==
-  IF ~FloatClassInSubset(r.cls) THEN "OUT"
+  IF ~DirectClassInSubset(r.cls) THEN "OUT"
   ELSE IF r.go.err = r.js.err /\ (r.go.err \/ C4SameText(r.go.out, r.js.out)) THEN "OK" ELSE "GOJS"
 
 Verdict(r) ==
